@@ -414,6 +414,23 @@ def _(p, A):
     return lambda: g.integrate(F)
 
 
+@op("Grid.points/weights setters", alias=True)
+def _(p, A):
+    g0, P, W = _grid1(p, A) if _v(p, 2) else _grid3(p, A)
+    newp = A.arr("new_points", np.array(P) * 2.0)
+    neww = A.same("new_weights", W) if P.ndim > 1 else A.same("new_weights", newp)
+    c = A.arr("center", 0.5) if P.ndim == 1 else A.arr("center", [0.0, 0.0, 0.0])
+
+    def run():
+        g = type(g0)(P, W)  # the setters change the receiver: a new one for every call
+        before = g.get_localgrid(c, 1.0)
+        g.points = newp
+        g.weights = neww
+        return [before, g.get_localgrid(c, 1.0), g.integrate(neww)]
+
+    return run
+
+
 @op("Grid.get_localgrid")
 def _(p, A):
     v = _v(p, 4)
